@@ -48,7 +48,7 @@ package bus
 //@   monitor forall k uint32 {has(s.boxes, k)} :: has(s.boxes, k) ==> !s.boxes[k].chclosed
 
 //@ func (s *serviceImpl) Remove(objectID uint32) (err error)
-//@   tags C16
+//@   tags C16 C12
 //@   requires !s.RWMutex.lockw && s.RWMutex.lockr == 0
 //@   modifies everything
 //@   ensures !s.RWMutex.lockw && s.RWMutex.lockr == 0
@@ -88,10 +88,12 @@ package bus
 //@   call Unlock#2: assert[C16] at_lock(has(s.objects, 1)) ==> !at_lock(has(s.objects, index))
 //@   call NewMailBox#1: assert[C16] at_lock(has(s.objects, 1)) ==> !at_lock(has(s.objects, index))
 
+//@ ghostfield epref int
+//@ ghostfield eptag int
 //@ interface (c Channel) EndPoint() (result net.EndPoint)
 //@   trusted
 //@   pure
-//@   ensures result != nil
+//@   ensures result != nil && ref(result) == c.epref && tagof(result) == c.eptag
 //@ func SelectEndPoint(addrs []string, user string, token string) (addr string, channel Channel, err error)
 //@   trusted
 //@   pure
@@ -391,6 +393,10 @@ package bus
 //@   ensures[C13,C12] !o.signalsMutex.lockw && o.signalsMutex.lockr == 0
 //@   ensures[C13] err == nil ==> at_unlock(len(o.signals)) == at_lock(len(o.signals)) - 1
 //@   ensures[C13] err != nil ==> at_unlock(len(o.signals)) == at_lock(len(o.signals)) && forall k int {at_unlock(o.signals[k])} :: 0 <= k && k < at_lock(len(o.signals)) ==> at_unlock(o.signals[k]).userID == at_lock(o.signals[k]).userID
+//@   call Unlock#1: assert[C13] user.userID == userID && user.context.epref == from.epref && user.context.eptag == from.eptag
+//@   call Unlock#1: assert[C13] len(o.signals) == at_lock(len(o.signals)) - 1 && at_lock(o.signals[i]).userID == userID && at_lock(o.signals[i]).context == user.context
+//@   call Unlock#1: assert[C13] forall k int {o.signals[k]} :: 0 <= k && k < len(o.signals) && k != i ==> o.signals[k].userID == at_lock(o.signals[k]).userID && o.signals[k].signalID == at_lock(o.signals[k]).signalID && o.signals[k].messageID == at_lock(o.signals[k]).messageID && o.signals[k].context == at_lock(o.signals[k]).context && o.signals[k].contextID == at_lock(o.signals[k]).contextID
+//@   call Unlock#1: assert[C13] i < len(o.signals) ==> o.signals[i].userID == at_lock(o.signals[len(o.signals) - 1]).userID && o.signals[i].signalID == at_lock(o.signals[len(o.signals) - 1]).signalID && o.signals[i].messageID == at_lock(o.signals[len(o.signals) - 1]).messageID && o.signals[i].context == at_lock(o.signals[len(o.signals) - 1]).context && o.signals[i].contextID == at_lock(o.signals[len(o.signals) - 1]).contextID
 //@   loop 1:
 //@     invariant o.signalsMutex.lockw && o.signals == at_lock(o.signals)
 //@     invariant forall k int {o.signals[k]} :: 0 <= k && k < len(o.signals) ==> o.signals[k].context != nil && o.signals[k].userID == at_lock(o.signals[k]).userID
@@ -400,16 +406,24 @@ package bus
 //@ func (o *signalHandler) replyEvent(user *signalUser, signal uint32, value []byte) (err error)
 //@   tags C13
 //@   requires user != nil && user.context != nil
-//@   modifies user.context.sent, user.context.lasttype, user.context.lastid, user.context.lastaction, user.context.lastservice, user.context.lastobject
+//@   modifies user.context.sent, user.context.lasttype, user.context.lastid, user.context.lastaction, user.context.lastservice, user.context.lastobject, o.evattempts
+//@   ensures[C13,C14] o.evattempts == old(o.evattempts) + 1
+//@   ghost_at_return o.evattempts := old(o.evattempts) + 1
 //@   ensures[C13] user.context.sent == old(user.context.sent) + 1 && user.context.lasttype == 5 && user.context.lastid == user.messageID && user.context.lastaction == signal && user.context.lastservice == o.serviceID && user.context.lastobject == o.objectID
 
 // UpdateSignal: the matching entries are collected under the read lock into a private slice, then
 // each of them (and nobody else) is sent one event, in table order.
+// Every collected entry is attempted, whatever happens to the others: the number of events sent
+// (evattempts) grows by exactly the number of collected entries (evmatch) on every return path.
+//@ ghostfield evattempts int counter
+//@ ghostfield evmatch int counter
 //@ func (o *signalHandler) UpdateSignal(signalID uint32, data []byte) (ret error)
-//@   tags C13 C12
+//@   tags C13 C12 C14
 //@   requires !o.signalsMutex.lockw && o.signalsMutex.lockr == 0
-//@   modifies everything
+//@   modifies everything, o.evattempts, o.evmatch
 //@   ensures[C13] !o.signalsMutex.lockw && o.signalsMutex.lockr == 0
+//@   ghost_at_return o.evmatch := len(signals)
+//@   ensures[C13,C14] o.evattempts == old(o.evattempts) + o.evmatch
 //@   private signals[*]
 //@   call RLock#1: assume_after ref(signals) != ref(o.signals)
 //@   call replyEvent#1: assert[C13] user.signalID == signalID && user.context != nil
@@ -420,6 +434,7 @@ package bus
 //@     invariant forall k int {signals[k]} :: 0 <= k && k < len(signals) ==> signals[k].signalID == signalID && signals[k].context != nil
 //@   loop 2:
 //@     invariant !o.signalsMutex.lockw && o.signalsMutex.lockr == 0
+//@     invariant o.evattempts == old(o.evattempts) + rangeindex + 1
 //@     invariant forall k int {signals[k]} :: 0 <= k && k < len(signals) ==> signals[k].signalID == signalID && signals[k].context != nil
 
 // addSignalUser: a duplicate id is refused before anything is touched (the table and every
